@@ -689,6 +689,33 @@ func Run(r *mc.Run) {
 	}
 	invalidNumbers = gen.Dedup(invalidNumbers)
 	asV = append(asV, handV...)
+	// histories of three questions on one goroutine: a parsable number, an unparsable one, the first again (and the other
+	// way round) - whatever the library remembers of the earlier numbers, every answer is the one the constraint has alone
+	r.Scenario("version-constraint-histories", map[string]interface{}{"shape": "N, N', N and N', N, N' for every parsable N x unparsable N' x operator in << = >=, V in 1.0 2.0; one worker", "parsable": len(validVersions), "unparsable": len(invalidNumbers)}, 1, func(_ int, st *mc.Stats) bool {
+		for _, n := range validVersions {
+			for _, bad := range invalidNumbers {
+				for _, op := range []string{"<<", "=", ">="} {
+					for _, v := range []string{"1.0", "2.0"} {
+						for _, seq := range [][]string{{n, bad, n}, {bad, n, bad}} {
+							st.Evals++
+							st.Traces++
+							st.Nontrivial++
+							for step, num := range seq {
+								valid := num == n
+								if x := checkSat("version-constraint-histories", SatIn{op, num, v}, valid); x != nil {
+									x.Observed = fmt.Sprintf("%s (question %d of the history %q)", x.Observed, step+1, seq)
+									st.Violate(x)
+									st.Class("wrong")
+								}
+							}
+						}
+					}
+				}
+			}
+		}
+		st.Class("agrees")
+		return true
+	})
 	r.Scenario("version-constraint", map[string]interface{}{"operators": ops, "valid_versions": len(validVersions), "V_also": "the zero version.Version{}", "unparsable_numbers": invalidNumbers}, len(asV), func(i int, st *mc.Stats) bool {
 		v := asV[i]
 		for _, op := range ops {
